@@ -148,6 +148,7 @@ func newOPT(c *Cloner, udpSize uint16, doBit bool) (opt *dns.OPT) {
 		opt = &dns.OPT{}
 	} else {
 		opt = c.opt.rr.Get()
+		opt.Hdr = dns.RR_Header{}
 		opt.Option = opt.Option[:0]
 	}
 
